@@ -563,6 +563,13 @@ def run(ck, replay):
                 why = monitor_probe(o)
                 if why:
                     monfail.append((ci, oi, why))
+            elif o["op"] == "C" and o.get("status") == "200" and "authlen" in o:
+                # what createsession.go hands out: 128 bytes of crypto/rand as 256 hex characters.  The state machine slices
+                # s.auth[:8] (captcha URL): a secret of fewer than 8 bytes would panic every node (hypothesis wf_entry of C06)
+                dist["secret/%s" % o["authlen"]] = dist.get("secret/%s" % o["authlen"], 0) + 1
+                if int(o["authlen"]) < 256 or o.get("authhex") != "true":
+                    monfail.append((ci, oi, ("session-secret-weak", "POST /session returned a secret of %s characters (hex only: %s); createsession.go is "
+                                             "expected to hand out 256 hex characters (C06's theorem assumes at least 8: s.auth[:8])" % (o["authlen"], o.get("authhex")))))
             elif o["op"] == "U":
                 mlines_in.append("uint " + o["s"]); impl.append("uint " + o["v"]); owner.append((ci, oi))
                 try:
